@@ -827,6 +827,102 @@ pub fn c13(tier: &str, seed: u64, ops: Option<&[String]>) -> Report {
             }
         }
     }
+    // the wire path (`Protocol::decode_async`) and whole CONNECT frames on both families, for near-miss
+    // names; in --ops mode: the `proto` and CONNECT `dec`/`poll` lines handed over by the check
+    fn pair(name: &[u8], level: u8) -> Option<Protocol> {
+        match (name, level) {
+            (b"MQIsdp", 3) => Some(Protocol::V310),
+            (b"MQTT", 4) => Some(Protocol::V311),
+            (b"MQTT", 5) => Some(Protocol::V500),
+            _ => None,
+        }
+    }
+    let mut wire: Vec<Vec<u8>> = Vec::new();
+    let mut frames: Vec<(bool, Vec<u8>)> = Vec::new();
+    match ops {
+        None => {
+            for name in crate::gen::proto_names() {
+                for level in [0u8, 3, 4, 5, 6, 0x84] {
+                    let mut f = (name.len() as u16).to_be_bytes().to_vec();
+                    f.extend_from_slice(&name);
+                    f.push(level);
+                    wire.push(f.clone());
+                    if matches!(level, 3 | 4 | 5) && !name.is_empty() {
+                        let mut body = f;
+                        body.extend_from_slice(&[2, 0, 10]);
+                        if level == 5 {
+                            body.push(0);
+                        }
+                        body.extend_from_slice(&[0, 1, b'c']);
+                        let mut fr = vec![0x10, body.len() as u8];
+                        fr.extend_from_slice(&body);
+                        frames.push((true, fr.clone()));
+                        frames.push((false, fr));
+                    }
+                }
+            }
+        }
+        Some(lines) => {
+            for l in lines {
+                let t: Vec<&str> = l.split_whitespace().collect();
+                if t.len() >= 2 && t[0] == "proto" {
+                    if let Some(b) = crate::fmt::unhex(t[1]) {
+                        wire.push(b);
+                    }
+                } else if t.len() >= 3 && (t[0] == "dec" || t[0] == "poll") {
+                    if let Some(b) = crate::fmt::unhex(t[2]) {
+                        if b.len() > 4 && b[0] == 0x10 && b[1] < 0x80 {
+                            frames.push((t[1] == "v3", b));
+                        }
+                    }
+                }
+            }
+        }
+    }
+    for w in wire {
+        if w.len() < 3 || w.len() != 3 + (((w[0] as usize) << 8) | w[1] as usize) {
+            continue;
+        }
+        rep.cases += 1;
+        let (name, level) = (&w[2..w.len() - 1], w[w.len() - 1]);
+        let mut rd: &[u8] = &w;
+        let got = futures_lite::future::block_on(Protocol::decode_async(&mut rd));
+        let good = match (pair(name, level), &got) {
+            (Some(p), Ok(q)) => p == *q && rd.is_empty(),
+            (None, Err(e)) => !e.is_eof(),
+            _ => false,
+        };
+        if !good {
+            rep.fail("protocol-wire", format!("proto {}", hex(&w)), format!("name {:?} level {}: Protocol::decode_async gave {:?}; the only valid pairs are (MQIsdp,3), (MQTT,4), (MQTT,5)", String::from_utf8_lossy(name), level, got));
+        }
+    }
+    for (is_v3, fr) in frames {
+        let n = ((fr[2] as usize) << 8) | fr[3] as usize;
+        if fr.len() < 4 + n + 1 {
+            continue;
+        }
+        rep.cases += 1;
+        let (name, level) = (&fr[4..4 + n], fr[4 + n]);
+        let native = match pair(name, level) {
+            Some(Protocol::V500) => !is_v3,
+            Some(_) => is_v3,
+            None => false,
+        };
+        let (blocking_ok, poll_ok, text) = if is_v3 {
+            let r = v3::Packet::decode(&fr);
+            (matches!(r, Ok(Some(_))), V3::poll(&fr, vec![], Term::Eof).res.is_ok(), format!("{:?}", r.map(|o| o.map(|q| crate::v3text::show(&q)))))
+        } else {
+            let r = v5::Packet::decode(&fr);
+            (matches!(r, Ok(Some(_))), V5::poll(&fr, vec![], Term::Eof).res.is_ok(), format!("{:?}", r.map(|o| o.map(|q| crate::v5text::show(&q)))))
+        };
+        if !native && (blocking_ok || poll_ok) {
+            rep.fail(
+                "protocol-pair-accepted",
+                format!("dec {} {}", if is_v3 { "v3" } else { "v5" }, hex(&fr)),
+                format!("CONNECT with protocol name {:?} level {} is not a {} CONNECT, but the decoder returned {}", String::from_utf8_lossy(name), level, if is_v3 { "v3" } else { "v5" }, text),
+            );
+        }
+    }
     rep.distinct = rep.cases;
     rep.sample("dec v3 <encoding of a v5 CONNECT> -> err UnexpectedProtocol(V500)".into());
     rep
